@@ -175,10 +175,22 @@ pub fn scenarios(thorough: bool) -> Vec<StopScenario> {
 	// control frames from the peer while the server waits for pending calls: they are not a disconnect
 	add("ws-peer-pongs-during-stop", vec![ws(vec![PeerAct::SlowCall, PeerAct::Pong])], vec![], false, false, 1, mask_harness_only);
 	add("ws-peer-pings-during-stop", vec![ws(vec![PeerAct::SlowCall, PeerAct::Ping, PeerAct::Call])], vec![], false, false, 1, mask_harness_only);
+	add("two-ws", vec![ws(vec![PeerAct::SlowCall]), ws(vec![PeerAct::SlowCall, PeerAct::Call])], vec![], false, false, 1, mask_harness_only);
+	add("ws-two-calls-server-points", vec![ws(vec![PeerAct::SlowCall, PeerAct::SlowCall])], vec![], false, false, 1, mask_all_server);
+	add("two-ws-one-http", vec![ws(vec![PeerAct::SlowCall]), ws(vec![PeerAct::Subscribe(0)]), http(vec![HttpAct::SlowCall])], vec![vec![Accept, Send, Send]], true, false, 1, mask_harness_only);
 	if thorough {
-		add("two-ws", vec![ws(vec![PeerAct::SlowCall]), ws(vec![PeerAct::SlowCall, PeerAct::Call])], vec![], false, false, 1, mask_harness_only);
-		add("ws-two-calls-server-points", vec![ws(vec![PeerAct::SlowCall, PeerAct::SlowCall])], vec![], false, false, 1, mask_all_server);
-		add("two-ws-one-http", vec![ws(vec![PeerAct::SlowCall]), ws(vec![PeerAct::Subscribe(0)]), http(vec![HttpAct::SlowCall])], vec![vec![Accept, Send, Send]], true, false, 1, mask_harness_only);
+		add("ws-slow-call-2-steps-server-points", vec![ws(vec![PeerAct::SlowCall])], vec![], false, false, 2, mask_all_server);
+		add("ws-three-calls", vec![ws(vec![PeerAct::SlowCall, PeerAct::SlowCall, PeerAct::Call])], vec![], false, false, 1, mask_harness_only);
+		add("ws-and-http-server-points", vec![ws(vec![PeerAct::SlowCall]), http(vec![HttpAct::SlowCall])], vec![], false, false, 1, mask_all_server);
+		add("three-ws-stop-twice", vec![ws(vec![PeerAct::SlowCall]), ws(vec![PeerAct::SlowCall]), ws(vec![PeerAct::Call, PeerAct::CloseFrame])], vec![], true, false, 1, mask_harness_only);
+		add("ws-subscription-unsubscribe-during-stop", vec![ws(vec![PeerAct::Subscribe(0), PeerAct::SlowCall, PeerAct::Unsub(0)])], vec![vec![Accept, Send, Send]], false, false, 1, mask_harness_only);
+		add("http-three-keepalive-calls", vec![http(vec![HttpAct::SlowCall, HttpAct::SlowCall, HttpAct::Call])], vec![], false, false, 1, mask_harness_only);
+		add("two-http-one-ws-drop-handles", vec![http(vec![HttpAct::SlowCall]), http(vec![HttpAct::SlowCall, HttpAct::Call]), ws(vec![PeerAct::SlowCall])], vec![], false, true, 1, mask_harness_only);
+		add("two-ws-server-points", vec![ws(vec![PeerAct::SlowCall]), ws(vec![PeerAct::SlowCall])], vec![], false, false, 1, mask_all_server);
+		add("ws-subscription-open-server-points", vec![ws(vec![PeerAct::Subscribe(0), PeerAct::SlowCall])], vec![vec![Accept, Send]], false, false, 1, mask_all_server);
+		add("ws-peer-closes-during-stop-server-points", vec![ws(vec![PeerAct::SlowCall, PeerAct::CloseFrame])], vec![], false, false, 1, mask_all_server);
+		add("ws-peer-pongs-during-stop-server-points", vec![ws(vec![PeerAct::SlowCall, PeerAct::Pong])], vec![], false, false, 1, mask_all_server);
+		add("ws-pong-and-close-during-stop", vec![ws(vec![PeerAct::SlowCall, PeerAct::Pong, PeerAct::CloseFrame])], vec![], false, false, 1, mask_harness_only);
 	}
 	// SRV-TCP legs: the same histories against Server::start over loopback sockets (accept loop + process_connection)
 	let mut tcp = vec![
@@ -188,8 +200,10 @@ pub fn scenarios(thorough: bool) -> Vec<StopScenario> {
 		("no-connections-stop-twice", vec![], true, false),
 		("ws-slow-call-drop-handles", vec![Conn::Ws(vec![PeerAct::SlowCall])], false, true),
 	];
+	tcp.push(("ws-two-calls-http-keepalive", vec![Conn::Ws(vec![PeerAct::SlowCall, PeerAct::Call]), Conn::Http(vec![HttpAct::SlowCall, HttpAct::Call])], true, false));
 	if thorough {
-		tcp.push(("ws-two-calls-http-keepalive", vec![Conn::Ws(vec![PeerAct::SlowCall, PeerAct::Call]), Conn::Http(vec![HttpAct::SlowCall, HttpAct::Call])], true, false));
+		tcp.push(("two-ws", vec![Conn::Ws(vec![PeerAct::SlowCall]), Conn::Ws(vec![PeerAct::SlowCall, PeerAct::Call])], false, false));
+		tcp.push(("ws-peer-pongs-during-stop", vec![Conn::Ws(vec![PeerAct::SlowCall, PeerAct::Pong])], false, false));
 	}
 	for (name, conns, twice, drop_handles) in tcp {
 		v.push(StopScenario { name: name.to_string(), conns, scripts: vec![], stop_twice: twice, drop_handles, slow_steps: 1, mask: mask_harness_only, tcp: true });
